@@ -290,7 +290,7 @@ package tor
 //@   requires r != nil && RdOK(r)
 //@   modifies r.requested, r.requestedIndex, r.ch, r.torrent
 //@   ensures  [closed] r.torrent == nil && RdOK(r)
-//@   props    C02
+//@   props    C02 C10
 
 // ---- Requested (C10) ----
 // RQ: every entry of the table is a distinct object, and a channel it holds
@@ -393,4 +393,23 @@ package tor
 //@   loop 1
 //@     invariant RQOpen(rs) && RQDistinct(rs) && rs.pieces != nil
 //@     invariant [wanted] forall i int :: 0 <= i && i < 4294967296 && old(rs.pieces[uint32(i)]) != nil && old(len(rs.pieces[uint32(i)].prio)) > 0 ==> rs.pieces[uint32(i)] == old(rs.pieces[uint32(i)])
+//@   props    C10
+
+// writePeers: NOT verified (channel sends to the peers' event queues); it
+// touches no torrent state.
+//@ func writePeers
+//@   trusted
+//@   requires t != nil
+
+// requestPiece: a wait channel is only ever created for a piece that was NOT
+// complete when looked at (a channel made for a complete piece would never be
+// closed: lost wake-up); withdrawing uses Del; the table invariant is kept.
+//@ func requestPiece
+//@   requires t != nil && GeomSizes(t) && PGeom(t) && RQ(&t.requested)
+//@   ghostvar Ghost_complete bool
+//@   atcall   (*Pieces).Complete :: true :: Ghost_complete = $r0
+//@   modifies *
+//@   assertcall [nowait] (*Requested).Add :: want ==> !Ghost_complete
+//@   ensures  [rq]     RQOpen(&t.requested) && RQDistinct(&t.requested) && t.requested.pieces != nil
+//@   ensures  [range]  int(index) >= len(t.PieceHashes) ==> $r0 == nil && !$r1
 //@   props    C10
